@@ -7,8 +7,8 @@ Model of corpus preparation (C14):
   esrally/utils/io.py       decompress (+ _do_decompress_manually[_external|_with_lib], _do_decompress),
                             prepare_file_offset_table, FileOffsetTable.is_valid, remove_file_offset_table
 
-Import-free.  The file system is abstract: four names (document file, archive, `<target>.tmp`,
-`<document>.offset`), each absent or (size, content id, mtime).  Content id `pub` means "the first
+Import-free.  The file system is abstract: five names (document file, archive, `<target>.tmp`,
+`<document>.offset`, `<document>.offset.tmp`), each absent or (size, content id, mtime).  Content id `pub` means "the first
 `size` bytes of the published file of that name", `other t` is any other byte string (registered
 under tag `t` by the harness).  Every operation is a sequence of *atomic* file-system steps; each
 function returns, besides its result and the final state, the list of the states after each atomic
@@ -52,6 +52,7 @@ structure FS where
   arch : Option File
   tmp : Option File
   off : Option OffFile
+  offTmp : Option OffFile   -- `<document>.offset.tmp`: the table while it is being built
   clock : Nat          -- "now": stamp of the next mutation
 deriving DecidableEq, Repr
 
@@ -333,6 +334,7 @@ def decompressorDecompress (w : World) (spec : Spec) (fs : FS) : Out Unit :=
 /-! ## offset table -/
 
 def FS.setOff (fs : FS) (v : Option OffFile) : FS := { fs with off := v }
+def FS.setOffTmp (fs : FS) (v : Option OffFile) : FS := { fs with offTmp := v }
 
 /-- `FileOffsetTable.is_valid()`: exists and mtime(offset) >= mtime(data file) -/
 def offsetValid (fs : FS) (d : File) : Bool :=
@@ -340,25 +342,29 @@ def offsetValid (fs : FS) (d : File) : Bool :=
   | some o => decide (o.mtime ≥ d.mtime)
   | none => false
 
-/-- successive `print(..., file=offset_file)` -/
+/-- successive `print(..., file=offset_file)`; the file is `<document>.offset.tmp` -/
 def writeOff (fs : FS) (d : File) (done : Nat) : List Nat → FS × List FS
   | [] => (fs, [])
   | n :: ns =>
-    let fs1 := (fs.setOff (some ⟨.torn d.size d.cid (done + n), fs.clock⟩)).tick
+    let fs1 := (fs.setOffTmp (some ⟨.torn d.size d.cid (done + n), fs.clock⟩)).tick
     let r := writeOff fs1 d (done + n) ns
     (r.1, fs1 :: r.2)
 
 /-- `io.prepare_file_offset_table(path)`: `none` if the table is considered valid, else lines read.
-    A decoding error leaves the (closed) partial table behind. -/
+    The table is built under `<document>.offset.tmp` and published with `os.replace` when the build finished
+    without exception; otherwise the temporary file is removed (`FileOffsetTable.__exit__`). -/
 def prepareFileOffsetTable (w : World) (fs : FS) (d : File) : Except CodeErr (Option Nat) × FS × List FS :=
   if offsetValid fs d then (.ok none, fs, [])
   else
-    let a := (fs.setOff (some ⟨.torn d.size d.cid 0, fs.clock⟩)).tick          -- open(offset, "wt")
+    let a := (fs.setOffTmp (some ⟨.torn d.size d.cid 0, fs.clock⟩)).tick          -- open(offset.tmp, "wt")
     let b := writeOff a d 0 (w.tbl d.cid d.size)
-    if w.decodeFails d.cid d.size then (.error .unicodeError, b.1, a :: b.2)
+    if w.decodeFails d.cid d.size then
+      let c := (b.1.setOffTmp none).tick                                          -- close; os.remove(offset.tmp)
+      (.error .unicodeError, c, a :: b.2 ++ [c])
     else
-      let c := (b.1.setOff (some ⟨.complete d.size d.cid, b.1.clock⟩)).tick    -- close
-      (.ok (some (w.lines d.cid d.size)), c, a :: b.2 ++ [c])
+      let c := (b.1.setOffTmp (some ⟨.complete d.size d.cid, b.1.clock⟩)).tick    -- close
+      let e := ((c.setOff c.offTmp).setOffTmp none).tick                          -- os.replace(offset.tmp, offset)
+      (.ok (some (w.lines d.cid d.size)), e, a :: b.2 ++ [c, e])
 
 /-- `DocumentSetPreparator.create_file_offset_table(doc_path, expected_number_of_lines)` -/
 def createFileOffsetTable (w : World) (spec : Spec) (fs : FS) : Out Unit :=
@@ -370,8 +376,8 @@ def createFileOffsetTable (w : World) (spec : Spec) (fs : FS) : Out Unit :=
     | .error e => ⟨.error e, r.2.1, r.2.2⟩
     | .ok none => ⟨.ok (), r.2.1, r.2.2⟩
     | .ok (some n) =>
-      -- `if lines_read and lines_read != expected_number_of_lines`
-      if n != 0 && n != spec.nlines then
+      -- `if lines_read is not None and lines_read != expected_number_of_lines`
+      if n != spec.nlines then
         let fs2 := (r.2.1.setOff none).tick                                      -- remove_file_offset_table
         ⟨.error .linesMismatch, fs2, r.2.2 ++ [fs2]⟩
       else ⟨.ok (), r.2.1, r.2.2⟩
